@@ -57,7 +57,7 @@ type c28Req struct {
 }
 
 type c28Huge struct {
-	Kind string `json:"kind"` // json-number-array | json-many-fields | otlp-big-attr
+	Kind string `json:"kind"` // json-number-array | json-many-fields | otlp-big-attr | msgpack-big-string (sent zstd-compressed)
 	N    int    `json:"n"`    // array length / number of fields / attribute bytes
 }
 
@@ -85,6 +85,15 @@ func c28HugeBody(r c28Req) (body []byte, ct string, events int) {
 			return []byte(`[{"samplerate":1,"data":` + data.String() + `},{"samplerate":1,"data":{"name":"small"}}]`), "application/json", 2
 		}
 		return []byte(data.String()), "application/json", 1
+	case "msgpack-big-string":
+		// a few KB on the wire (zstd), N bytes of string once decompressed: cheap to
+		// parse, so this is the everyday member of the family
+		big := map[string]any{"name": "big", "s": strings.Repeat("x", h.N)}
+		if strings.HasPrefix(r.Endpoint, "/1/batch") {
+			raw := authMsgpack([]map[string]any{{"samplerate": 1, "data": big}, {"samplerate": 1, "data": map[string]any{"name": "small"}}})
+			return c28ZstdEnc.EncodeAll(raw, nil), "application/msgpack", 2
+		}
+		return c28ZstdEnc.EncodeAll(authMsgpack(big), nil), "application/msgpack", 1
 	case "otlp-big-attr":
 		big := strings.Repeat("x", h.N)
 		if strings.Contains(r.Endpoint, "logs") || strings.Contains(r.Endpoint, "Logs") {
@@ -598,6 +607,9 @@ var c28ZstdEnc, _ = zstd.NewWriter(nil, zstd.WithEncoderConcurrency(1))
 func c28Wire(r c28Req) (body []byte, ct, ce string) {
 	if r.Huge != nil {
 		body, ct, _ = c28HugeBody(r)
+		if r.Huge.Kind == "msgpack-big-string" {
+			return body, ct, "zstd"
+		}
 		return body, ct, ""
 	}
 	base, ok := c28Bases[r.Base]
@@ -828,15 +840,22 @@ func genC28LookupHistory(t *rapid.T) c28Case {
 func genC28Huge(t *rapid.T) c28Case {
 	r := c28Req{Method: "POST", Key: "legacy", Dataset: "ds", Huge: &c28Huge{}}
 	over5 := rapid.IntRange(0, 3).Draw(t, "over-5MB") != 0 // mostly beyond a whole batch
-	switch rapid.IntRange(0, 5).Draw(t, "huge-kind") {
-	case 0, 1, 2:
-		r.Huge.Kind, r.Huge.N = "json-number-array", 130_000
+	switch rapid.IntRange(0, 9).Draw(t, "huge-kind") {
+	case 0, 1, 2, 3:
+		r.Huge.Kind, r.Huge.N = "msgpack-big-string", 1_200_000
 		if over5 {
+			r.Huge.N = 5_300_000
+		}
+	case 4:
+		// JSON numbers inflate 2 -> 9 bytes; refinery's JSON path is slow on long
+		// arrays (seconds of CPU), so the > 5 MB variant is rare
+		r.Huge.Kind, r.Huge.N = "json-number-array", 130_000
+		if over5 && rapid.IntRange(0, 3).Draw(t, "json-600k") == 3 {
 			r.Huge.N = 600_000
 		}
-	case 3:
+	case 5:
 		r.Huge.Kind, r.Huge.N = "json-many-fields", 70_000
-		if over5 {
+		if over5 && rapid.IntRange(0, 3).Draw(t, "json-330k") == 3 {
 			r.Huge.N = 330_000
 		}
 	default:
